@@ -31,6 +31,7 @@ type Engine struct {
 	built       map[*ssa.Package]bool
 	initSlices  map[*ssa.Global][]ssa.Instruction
 	icCache     sync.Map
+	builtFast   sync.Map
 	maxDecisions int
 	maxSteps    int
 	maxPaths    int
@@ -64,6 +65,7 @@ type Stats struct {
 	Paths        int     `json:"paths"`
 	Pruned       int     `json:"pruned"`
 	Branches     int     `json:"branches"`
+	UnitDecided  int     `json:"branches_decided_on_unit_domain"`
 	Asserts      int     `json:"asserts"`
 	Discharged   int     `json:"discharged"`
 	TrivialTrue  int     `json:"trivially_true"`
@@ -214,6 +216,9 @@ func (e *Engine) Load(pkgDirs []string) error {
 }
 
 func (e *Engine) buildPkg(p *ssa.Package) {
+	if _, ok := e.builtFast.Load(p); ok {
+		return
+	}
 	e.buildMu.Lock()
 	defer e.buildMu.Unlock()
 	if e.built[p] {
@@ -221,6 +226,7 @@ func (e *Engine) buildPkg(p *ssa.Package) {
 	}
 	p.Build()
 	e.built[p] = true
+	e.builtFast.Store(p, true)
 }
 
 // findHarnesses returns exported functions named Verif<prefix>... in the loaded repo packages.
@@ -276,6 +282,8 @@ func (ex *Exec) resetPath() {
 	ex.pathCovers = nil
 	ex.lastInstr = ""
 	ex.hashOf = nil
+	ex.hashedNodes = nil
+	ex.doms = map[string]*varDom{}
 	ex.curInstr = nil
 }
 
